@@ -126,6 +126,25 @@ def check_swap(ctx, P):
         o.fail("switch_to itself calls `%s`" % pub[0].text, site=pub[0], construct="publication inside switch_to")
     else:
         o.ok("swap at %s followed by maintenance" % swap.loc, [swap])
+    # maintenance runs only as the first thing after a switch
+    o = ctx.ob("swap.maintenance.sites", "", "fiber_manager_do_maintenance is called only as the first call after fiber_context_swap in switch_to and as the "
+               "first call of a fresh context (fiber_go_function)",
+               "maintenance consumes manager->old_fiber and the deferred-publication slots, which describe the fiber that was just switched away from; "
+               "called anywhere else it acts on a stale old_fiber (marking it WAITING although it runs again elsewhere: resumed twice)")
+    bad = None
+    sites = P.callers_of(MAINT)
+    for f, c in sites:
+        if f.name == "fiber_manager_switch_to":
+            if f.dominated_by(c, nodeset([swap])) is not None or f.find_path(swap, lambda n: n is c, barrier=lambda n: n.k == "CallExpr" and n is not c) is None:
+                bad = bad or ("in switch_to, not directly behind the swap", c)
+        elif f.name == "fiber_go_function":
+            if f.find_path("entry", lambda n: n is c, barrier=lambda n: n.k == "CallExpr" and n is not c and not (n.callee or "").startswith("__builtin")) is None:
+                bad = bad or ("in fiber_go_function, not the first call", c)
+        else:
+            bad = bad or ("called from %s" % f.name, c)
+    ctx.expect_count("callers of fiber_manager_do_maintenance", len(sites), 1)
+    o.check(bad is None, "%d call sites" % len(sites), "fiber_manager_do_maintenance " + (bad[0] if bad else ""), site=bad[1] if bad else None,
+            construct="maintenance outside a switch")
     # bookkeeping of switch_to: READY only when the old fiber was RUNNING, to_schedule set in the same branch
     o = ctx.ob("swap.requeue", sw, "the old fiber is marked READY and put in to_schedule only when its state is still RUNNING "
                "(a fiber that declared itself WAITING/SAVING/DONE must not be re-queued by the switch)",
@@ -821,6 +840,29 @@ def run(ctx):
     stale.check_stale(ctx, P, rule="stale")
     check_notouch(ctx, P)
     check_done(ctx, P)
+
+
+CORE_PREFIXES = ("swap.", "slots.", "states", "skip", "wake.ready", "wake.census", "wait.census", "done.")
+
+
+def core_dependency(ctx, P, rule, fns, what, why, prefixes=()):
+    """The C01 obligations on the context-switch core and on the blocking / waking functions `fns` a primitive is built on are
+    obligations of that primitive's property too: they are evaluated here and a failure is reported under `rule`."""
+    import check as _chk
+    sub = _chk.Ctx("C01", ctx.tier, ctx.seed)
+    sub._progs = ctx._progs
+    sub.config = ctx.config
+    run(sub)
+    o = ctx.ob(rule, "", "the context-switch core (maintenance directly behind every switch, deferred-publication slots, state discipline) and the "
+               "hand-off of %s satisfy the C01 rules" % what, why)
+    pre = CORE_PREFIXES + tuple(prefixes)
+    fails = [x for x in sub.obs if x.status == "fail" and (x.rule.startswith(pre) or x.fn in fns)]
+    if fails:
+        x = fails[0]
+        o.fail("C01.%s%s: %s" % (x.rule, (" in " + x.fn) if x.fn else "", x.found), site=x.sites[0] if x.sites else None, witness=x.witness,
+               construct="C01 dependency: " + (x.construct or x.rule))
+    else:
+        o.ok("%d C01 obligations on the core and on %d functions discharged" % (len([x for x in sub.obs if x.rule.startswith(pre) or x.fn in fns]), len(fns)))
 
 
 def thorough(ctx):
